@@ -358,3 +358,36 @@ def _summary_one(cls, path, kind, inp, CODE, VENDOR, DFLAGS, VALUES):
 
 for _c in registered_classes():
     _summary(_c)
+
+
+# =========================================================================================
+#  C03: wire data (bytes of any length) handed to a dictionary class either builds the AVP or
+#  raises one of the library's own error types -- the obligation DiameterAVP.load relies on
+# =========================================================================================
+def not_utf8(data):
+    """KNOWN FINDING region KF-C03-uri-utf8: DiameterURI data that is not valid UTF-8"""
+    from pyvc.spec import utf8_valid
+    return not utf8_valid(data)
+
+
+def _wire(cls):
+    path = cls.__module__ + "." + cls.__name__
+    kind = kind_of(cls)
+
+    @contract(path, prop="C03", name="wire")
+    class _W:
+        args = {"data": T.Bytes(maxlen=65536)}
+        max_paths = 400
+        if kind == "DiameterURI":
+            regions = {"KF-C03-uri-utf8": not_utf8}
+
+        def ensures_is_avp(result):
+            return isinstance(result, B.DiameterAVP)
+
+        def exceptional(exc):
+            return lib_error(exc)
+    return _W
+
+
+for _c in registered_classes():
+    _wire(_c)
